@@ -71,11 +71,59 @@ def gen_case(r, nops, K, exits=False, mode=None):
             ops.append({"k": "incentive", "a": a, "d": 0, "amt": "0", "rate": "1", "u": 0, "dt": 0})       # rejected
         if r.chance(1, 60):
             ops.append({"k": "collect_spread", "a": a, "id": r.range(1, 40)})                                # mostly foreign / missing
+    if r.chance(1, 2):
+        ops = boundary_blocks(r, ops, nops)
     c["ops"] = ops[:nops]
     c["spread_scaled"] = r.chance(1, 2)
     c["inc_scaled"] = r.chance(1, 2)
     c["exits"] = exits
     return c
+
+
+def boundary_block(r, first):
+    """boundary coincidence: the price is (optionally) moved exactly onto an initialised tick, positions are created whose UPPER or
+    LOWER tick is the pool's current tick (resolved by the driver: op create_at), then small swaps that mostly stay inside that tick
+    accrue spread rewards - a position whose range [lower, upper) does not contain the current tick must earn nothing, one whose
+    lower tick is the current tick must earn - and rewards are collected.  For every tick spacing (the case's)."""
+    a0, a1 = max(1, int(first.get("amt0", "1000"))), max(1, int(first.get("amt1", "1000")))
+    b = []
+    m = r.below(6)
+    if m < 3:
+        b.append({"k": "swap_to_tick", "a": r.below(3), "zfo": m == 0, "n": r.choice([1, 1, 2]), "delta": 0})
+    elif m == 3:     # there and back: leaves the price within a hair of the tick it came from
+        z = r.chance(1, 2)
+        b.append({"k": "swap_to_tick", "a": r.below(3), "zfo": z, "n": 1, "delta": 0})
+        b.append({"k": "swap_to_tick", "a": r.below(3), "zfo": not z, "n": 1, "delta": 0})
+    edges = r.choice([["upper"], ["lower"], ["upper", "lower"], ["lower", "upper"], ["upper", "upper"], ["upper", "lower", "upper"]])
+    for e in edges:
+        sc = r.choice([1, 1, 2, 10, 1000])
+        b.append({"k": "create_at", "a": r.below(3), "edge": e, "wd": r.choice([1, 1, 2, 10, 100, 5000]), "off": r.choice([0, 0, 0, 0, 1, -1]),
+                  "amt0": str(max(1, a0 // sc)), "amt1": str(max(1, a1 // sc)), "min0": "0", "min1": "0"})
+        if r.chance(1, 3):
+            b.append({"k": "swap_in", "a": r.below(3), "zfo": r.chance(1, 2), "amt": str(r.choice([1, 2, 10, 1000, max(1, a1 // 10**6)])), "lim": "1"})
+    for _ in range(r.range(2, 5)):
+        z = r.chance(1, 3)       # one-for-zero keeps the tick when it does not reach the next one
+        src = a0 if z else a1
+        amt = r.choice([1, 3, 10, 1000, max(1, src // 10**9), max(1, src // 10**6), max(1, src // 10**4), max(1, src // 100)])
+        b.append({"k": r.choice(["swap_in", "swap_in", "swap_out"]), "a": r.below(3), "zfo": z, "amt": str(amt), "lim": "1"})
+        if b[-1]["k"] == "swap_out":
+            b[-1]["lim"] = str(10**40)
+        if r.chance(1, 4):
+            b.append({"k": "collect_spread", "a": r.below(3), "sels": [r.below(64)], "own": True})
+    if r.chance(1, 2):
+        b.append({"k": "collect_spread", "a": r.below(3), "sels": [r.below(64), r.below(64)], "own": True})
+    if r.chance(1, 3):
+        b.append({"k": "withdraw", "a": r.below(3), "sel": r.below(64), "own": True, "num": 1, "den": r.choice([1, 1, 2])})
+    return b
+
+
+def boundary_blocks(r, ops, nops):
+    first = ops[0] if ops and ops[0].get("k") == "create" else {}
+    out = list(ops)
+    for _ in range(r.choice([1, 1, 2, 3])):
+        at = r.range(1, max(1, min(len(out), nops - 6)))
+        out[at:at] = boundary_block(r, first)
+    return out
 
 
 # ---------------------------------------------------------------------------------------------
